@@ -318,11 +318,18 @@ def run(ctx):
             continue
         args = [g.strip_casts(a) for a in g.call_args(cs[0])]
 
-        def unwrap(x):
+        local_init = {d["d"]: d["init"] for st_ in astq.nodes_of(g, "DeclStmt") for d in g.nodes[st_]["decls"] if "d" in d and d.get("init", -1) >= 0 and d.get("tk") in ("uint", "sint")}
+        reassigned = set(g.nodes[g.strip(g.nodes[x]["ch"][0])].get("d") for x in g.walk() if g.nodes[x]["k"] in ("BinaryOperator", "CompoundAssignOperator", "UnaryOperator") and
+                         (g.nodes[x].get("op", "").endswith("=") and g.nodes[x]["op"] not in ("==", "!=", "<=", ">=") or g.nodes[x].get("op") in ("++", "--")))
+
+        def unwrap(x, depth=0):
             n_ = g.nodes[x]
             while n_["k"] in ("CXXFunctionalCastExpr", "CXXUnresolvedConstructExpr", "CStyleCastExpr", "CXXStaticCastExpr", "ParenExpr", "InitListExpr") and len(n_.get("ch", [])) == 1:
                 x = g.strip_casts(n_["ch"][0])
                 n_ = g.nodes[x]
+            # a local that is initialised once and never changed stands for its initialiser
+            if n_["k"] == "DeclRefExpr" and n_.get("d") in local_init and n_.get("d") not in reassigned and depth < 4:
+                return unwrap(g.strip_casts(local_init[n_["d"]]), depth + 1)
             return x
         texts = [g.text(unwrap(a)) for a in args]
         ok_c = "content" in pnames and "content" in texts
